@@ -35,7 +35,7 @@ def is_copy_expr(m, f, e, var, consts):
     return False
 
 
-def owned_uses(ctx, rid, m, f, var, kind, consts, chain, depth=0, seen=None):
+def owned_uses(ctx, rid, m, f, var, kind, consts, chain, depth=0, seen=None, owned_defs=None):
     """Report every use of the caller-owned object bound to parameter `var` of `f` that may mutate it."""
     seen = seen if seen is not None else set()
     key = (f, var, tuple(sorted(consts.items())))
@@ -44,6 +44,12 @@ def owned_uses(ctx, rid, m, f, var, kind, consts, chain, depth=0, seen=None):
     seen.add(key)
     g = CFG(f, may_raise=lambda n: False)
     rd = reaching_defs(g, var)
+
+    def is_owned_def(d):
+        """the caller's object enters `var` here: the parameter itself, or (for a local alias) the aliasing assignment"""
+        if owned_defs is None:
+            return d is g.entry
+        return d.ast is not None and any(d.ast is a for a in owned_defs)
     mutating = PLAN_MUTATING if kind == "plan" else REGISTRY_MUTATING if kind == "registry" else set()
     n_uses = 0
     mod = f.module
@@ -84,7 +90,7 @@ def owned_uses(ctx, rid, m, f, var, kind, consts, chain, depth=0, seen=None):
         owned = False
         for c in cn:
             for d in rd[c]:
-                if d is g.entry:
+                if is_owned_def(d):
                     owned = True
                 elif isinstance(d.ast, ast.Assign) and not is_copy_expr(m, f, d.ast.value, var, consts) and var in names_in(d.ast.value):
                     # alias-preserving rebinding (e.g. `plan = plan if inplace else plan.copy()`)
@@ -92,9 +98,9 @@ def owned_uses(ctx, rid, m, f, var, kind, consts, chain, depth=0, seen=None):
                     if isinstance(v, ast.IfExp) and isinstance(v.test, ast.Name) and v.test.id in consts:
                         chosen = v.body if consts[v.test.id] else v.orelse
                         if is_name(chosen, var):
-                            owned = owned or any(x is g.entry for x in rd[d])
+                            owned = owned or any(is_owned_def(x) for x in rd[d])
                     else:
-                        owned = owned or any(x is g.entry for x in rd[d])
+                        owned = owned or any(is_owned_def(x) for x in rd[d])
         if not owned:
             continue
         n_uses += 1
@@ -163,6 +169,11 @@ def owned_uses(ctx, rid, m, f, var, kind, consts, chain, depth=0, seen=None):
             ctx.ob(rid, inst, True, where, "returned unchanged", norm(st)[:100])
             continue
         if isinstance(p, ast.Assign):
+            if len(p.targets) == 1 and isinstance(p.targets[0], ast.Name) and p.value is node and p.targets[0].id != var:
+                # a plain local alias: the alias is the caller's object too - follow it
+                ctx.ob(rid, inst, True, where, f"local alias `{p.targets[0].id}` (followed)", norm(st)[:100])
+                n_uses += owned_uses(ctx, rid, m, f, p.targets[0].id, kind, consts, chain + [f"{f.short}.{var}"], depth + 1, seen, owned_defs=[p])
+                continue
             ctx.ob(rid, inst, False, where, f"the caller's {kind} is aliased into `{norm(p.targets[0])}`", norm(st)[:100])
             continue
         if isinstance(p, ast.comprehension) or isinstance(p, (ast.For,)):
@@ -288,10 +299,12 @@ def check(ctx):
         if not isinstance(a0, ast.Name):
             continue
         bad = []
+        rd = reaching_defs(g, a0.id)
         for cn in g.of_stmt_containing(c, run.module):
             for d in rd[cn]:
                 if d is g.entry:
-                    bad.append("the parameter itself")
+                    if a0.id in run.params:
+                        bad.append("the parameter itself")
                 elif isinstance(d.ast, ast.Assign) and isinstance(d.ast.value, ast.Name):
                     bad.append(norm(d.ast))
         ctx.ob("C13.M5", f"{run.short}/inplace-on-copy", not bad, loc(run, c),
